@@ -204,6 +204,39 @@ def rule_lost_update(ctx, rep):
                           f"({cm.id})")
 
 
+def rule_framework_dispatch_keeps_updates(ctx, rep, rule_id="R-LOST-UPDATE"):
+    """Shared with C13: the framework's own dispatch (every leave_<X> of every codemod goes through it, for every node kind) must hand
+    back the *updated* node when it declines -- the original node has none of the fixes already made in its children."""
+    n = 0
+    for modname in ("codemodder.codemods.libcst_transformer", "codemodder.codemods.base_visitor", "codemodder.codemods.base_transformer"):
+        mod = ctx.prog.modules.get(modname)
+        if mod is None:
+            continue
+        for fn in [f for f in ctx.prog.live_functions() if f.module is mod and f.cls is not None]:
+            pp = fn.positional_params()
+            # (self, original, updated): libcst's leave_<X> signature, and helpers the dispatchers forward both nodes to
+            if len(pp) < 3:
+                continue
+            is_leave = fn.name.startswith("leave_")
+            forwarded = False
+            for caller, call in ctx.cg.sites.get(fn.qname, []):
+                cp = caller.positional_params()
+                if caller.name.startswith("leave_") and len(cp) >= 3 and len(call.args) >= 2 and [unparse(a) for a in call.args[:2]] == cp[1:3]:
+                    forwarded = True
+            if not (is_leave or forwarded):
+                continue
+            orig = pp[1]
+            for ret in [x for x in walk_no_nested(fn.node) if isinstance(x, ast.Return) and x.value is not None]:
+                n += 1
+                v = ctx.resolver(fn).expand(ret.value)
+                bad = isinstance(v, ast.Name) and v.id == orig
+                rep.check(rule_id, fn.qname, fn.loc(ret), not bad, f"framework:{fn.name}:return {unparse(ret.value)[:20]}",
+                          f"the framework dispatcher `{fn.name}` returns its original node `{orig}`: for every codemod and every node kind, fixes already "
+                          "made inside this node (a nested reported location) are reverted while their change entries stay in the report")
+    if n < 3:
+        raise AnalysisError(f"only {n} returns found in the framework dispatch methods (anchor vanished)")
+
+
 def rule_no_swallow(ctx, rep):
     rep.rule(
         "R-NO-SWALLOW",
@@ -240,6 +273,7 @@ def check(ctx, rep):
     fixed_image(ctx, rep)
     rule_hook_kind(ctx, rep)
     rule_lost_update(ctx, rep)
+    rule_framework_dispatch_keeps_updates(ctx, rep)
     rule_no_swallow(ctx, rep)
     from .c16 import rule_args_info_fresh
 
@@ -247,6 +281,9 @@ def check(ctx, rep):
     from .c07 import rule_scan_all
 
     rule_scan_all(ctx, rep)
+    from .c07 import rule_no_dup_keyword
+
+    rule_no_dup_keyword(ctx, rep)
     rep.not_covered += [
         "agreement of semgrep positions with libcst positions for all spellings (line/column matching)",
         "semgrep's matching semantics in general (metavariable unification, taint propagation)",
